@@ -47,6 +47,66 @@ Proof.
   - exists v. simpl. rewrite bytes_eqb_refl. split; [reflexivity | right; reflexivity].
 Qed.
 
+(* ---- the .PKGINFO text: every line counts, whatever its length -------------------------- *)
+Fixpoint no_char (c : ascii) (s : string) : Prop :=
+  match s with EmptyString => True | String d r => d <> c /\ no_char c r end.
+Fixpoint join_with (sep : ascii) (ls : list string) : string :=
+  match ls with
+  | [] => EmptyString
+  | [a] => a
+  | a :: r => (a ++ String sep (join_with sep r))%string
+  end.
+
+Lemma sapp_assoc a b c : ((a ++ b) ++ c)%string = (a ++ (b ++ c))%string.
+Proof. induction a as [|x a IH]; simpl; [reflexivity | rewrite IH; reflexivity]. Qed.
+Lemma rev_str_app s : forall acc, rev_str s acc = (rev_str s "" ++ acc)%string.
+Proof.
+  induction s as [|c s IH]; intro acc; [reflexivity|]. simpl. rewrite IH, (IH (String c "")).
+  rewrite sapp_assoc. reflexivity.
+Qed.
+Lemma append_nil_r s : (s ++ "")%string = s.
+Proof. induction s as [|c s IH]; simpl; [reflexivity | rewrite IH; reflexivity]. Qed.
+
+Lemma split_acc_part sep l : no_char sep l -> forall cur acc,
+  split_acc sep l cur acc = List.rev_append acc [(rev_str cur "" ++ l)%string] /\
+  forall r, split_acc sep (l ++ String sep r) cur acc = split_acc sep r "" ((rev_str cur "" ++ l)%string :: acc).
+Proof.
+  induction l as [|d l IH]; intros NC cur acc.
+  - simpl. rewrite append_nil_r, Ascii.eqb_refl. split; [reflexivity | intro r; reflexivity].
+  - destruct NC as [ND NC]. simpl. assert (Ascii.eqb d sep = false) as E by (apply Ascii.eqb_neq; exact ND). rewrite E.
+    destruct (IH NC (String d cur) acc) as [A B]. simpl in A, B.
+    assert ((rev_str cur (String d "") ++ l)%string = (rev_str cur "" ++ String d l)%string) as R.
+    { rewrite (rev_str_app cur (String d "")), sapp_assoc. reflexivity. }
+    rewrite R in A, B. split; [exact A | exact B].
+Qed.
+
+Lemma split_join sep : forall ls, ls <> [] -> (forall l, In l ls -> no_char sep l) ->
+  forall acc, split_acc sep (join_with sep ls) "" acc = List.rev_append acc ls.
+Proof.
+  induction ls as [|a ls IH]; intros NE NC acc; [contradiction NE; reflexivity|].
+  destruct ls as [|b ls].
+  - simpl. apply (proj1 (split_acc_part sep a (NC a (or_introl eq_refl)) "" acc)).
+  - change (join_with sep (a :: b :: ls)) with (a ++ String sep (join_with sep (b :: ls)))%string.
+    rewrite (proj2 (split_acc_part sep a (NC a (or_introl eq_refl)) "" acc)). simpl rev_str. simpl append at 1.
+    rewrite IH; [reflexivity | discriminate | intros l Hl; apply NC; right; exact Hl].
+Qed.
+
+(* controlValue on ANY text made of lines (no bound on their number or length): the
+   values are those of every line of the form key=value, in order *)
+Lemma control_values_lines key ls :
+  ls <> [] -> (forall l, In l ls -> no_char "010"%char l) ->
+  control_values (join_with "010"%char ls) key = List.flat_map (line_value key) ls.
+Proof. intros NE NC. unfold control_values, split_on. rewrite (split_join _ ls NE NC []). reflexivity. Qed.
+
+(* so a datahash line is found wherever it stands and whatever surrounds it *)
+Lemma control_values_finds key ls l v :
+  ls <> [] -> (forall l, In l ls -> no_char "010"%char l) ->
+  In l ls -> line_value key l = [v] -> In v (control_values (join_with "010"%char ls) key).
+Proof.
+  intros NE NC Hl Hv. rewrite (control_values_lines key ls NE NC). apply in_flat_map. exists l. split; [exact Hl|].
+  rewrite Hv. left; reflexivity.
+Qed.
+
 (* ---- the deciders of Spec ------------------------------------------------------- *)
 Lemma fkind_eqb_eq a b : fkind_eqb a b = true <-> a = b.
 Proof. destruct a, b; simpl; split; intro H; try reflexivity; try discriminate. Qed.
@@ -58,9 +118,9 @@ Proof.
 Qed.
 Lemma dfile_eqb_eq a b : dfile_eqb a b = true <-> a = b.
 Proof.
-  unfold dfile_eqb. destruct a as [n1 k1 b1 s1 l1], b as [n2 k2 b2 s2 l2]; simpl.
-  rewrite !andb_true_iff, !String.eqb_eq, fkind_eqb_eq, bytes_eqb_eq, recsum_eqb_eq.
-  split; [intros ((((-> & ->) & ->) & ->) & ->); reflexivity | intro H; inversion H; auto].
+  unfold dfile_eqb. destruct a as [n1 k1 b1 s1 l1 p1], b as [n2 k2 b2 s2 l2 p2]; simpl.
+  rewrite !andb_true_iff, !String.eqb_eq, fkind_eqb_eq, bytes_eqb_eq, recsum_eqb_eq, Bool.eqb_true_iff.
+  split; [intros (((((-> & ->) & ->) & ->) & ->) & ->); reflexivity | intro H; inversion H; auto 10].
 Qed.
 Lemma control_eqb_eq a b : control_eqb a b = true <-> a = b.
 Proof.
@@ -81,7 +141,7 @@ Section WithOracles.
   Variable sha256 : list N -> list N.
   Variable b64 : string -> option (list N).
   Variable first_name : list N -> option string.
-  Variable ctl_view : list N -> option (string * list string).
+  Variable ctl_view : list N -> option (string * string).
   Variable gunzip : list N -> option (list N).
   Variable untar : list N -> option (list dfile).
   Notation Chain := (Chain sha1 sha256 b64 ctl_view gunzip untar).
@@ -232,19 +292,23 @@ Section WithOracles.
       c_raw (e_ctl e) = u_ctl u /\ mk_ctl (u_ctl u) = Some (e_ctl e) /\ e_ch e = sha1 (u_ctl u) /\
       e_gz e = u_dat u /\ gunzip (u_dat u) = Some (e_tar e) /\ untar (e_tar e) = Some (e_files e) /\
       (u_full u = true -> e_dh e = sha256 (u_dat u) /\ check_sums sha1 (e_files e) = true) /\
-      (u_full u = false -> e_dh e = sha1 (u_dat u)).
+      (u_full u = false -> e_dh e = sha1 (u_dat u)) /\
+      index_ok (e_files e) = true.
   Proof.
     unfold PkgAuth.expand_apk_with. destruct (cut_with a s) as [u|]; [|discriminate].
     destruct (gunzip (u_dat u)) as [t|] eqn:G; [|discriminate].
     destruct (untar t) as [fs|] eqn:U; [|discriminate].
     destruct (u_full u && negb (check_sums sha1 fs)) eqn:Ck; [discriminate|].
+    destruct (index_ok fs) eqn:IO; cbn [negb]; [|discriminate].
     destruct (mk_ctl (u_ctl u)) as [c|] eqn:M; [|discriminate].
     intro H; inversion H; subst; clear H; simpl. exists u. split; [reflexivity|].
     split; [eapply mk_ctl_raw; exact M|]. split; [exact M|]. split; [reflexivity|].
     split; [reflexivity|]. split; [exact G|]. split; [exact U|].
-    destruct (u_full u); simpl in Ck.
-    - split; [intros _ | discriminate]. split; [reflexivity|]. destruct (check_sums sha1 fs); [reflexivity | discriminate Ck].
-    - split; [discriminate | reflexivity].
+    split; [|split; [|exact IO]]; destruct (u_full u); simpl in Ck.
+    - intros _. split; [reflexivity|]. destruct (check_sums sha1 fs); [reflexivity | discriminate Ck].
+    - discriminate.
+    - discriminate.
+    - reflexivity.
   Qed.
 
   (* ---- the on-disk cache -------------------------------------------------------- *)
@@ -289,10 +353,10 @@ Section WithOracles.
     destruct (is_hex dh); [|discriminate].
     apply assoc_b_in in A.
     destruct (assoc_s dh (k_tar k)) as [t|] eqn:At.
-    - destruct (untar t) as [fs|] eqn:U; [|discriminate]. intro H; inversion H; subst; simpl.
+    - destruct (untar t) as [fs|] eqn:U; [|discriminate]. destruct (index_ok fs); [|discriminate]. intro H; inversion H; subst; simpl.
       split; [reflexivity|]. exists sum, dh, t. apply assoc_s_in in At. repeat split; auto.
     - destruct (gunzip gz) as [t|] eqn:G; [|discriminate].
-      destruct (untar t) as [fs|] eqn:U; [|discriminate]. intro H; inversion H; subst; simpl.
+      destruct (untar t) as [fs|] eqn:U; [|discriminate]. destruct (index_ok fs); [|discriminate]. intro H; inversion H; subst; simpl.
       split; [reflexivity|]. exists sum, dh, t. repeat split; auto.
   Qed.
 
@@ -340,12 +404,13 @@ Section WithOracles.
     cache_ok k -> dst_same k e ->
     e_ch e = sha1 (c_raw (e_ctl e)) -> e_dh e = sha256 (e_gz e) ->
     gunzip (e_gz e) = Some (e_tar e) -> untar (e_tar e) = Some (e_files e) -> check_sums sha1 (e_files e) = true ->
+    index_ok (e_files e) = true ->
     forall k' x, cache_package k e = (k', x) ->
       cache_ok k' /\
       x = Some {| x_ctl := e_ctl e; x_ctl_file := c_raw (e_ctl e);
                   x_dat := {| d_raw := e_gz e; d_files := e_files e |}; x_ctl_hash := e_ch e |}.
   Proof.
-    intros (Kc & Kg & Kt & Kp) (Sc & Sg & St) Hch Hdh G U Cs k' x H. unfold PkgAuth.cache_package in H.
+    intros (Kc & Kg & Kt & Kp) (Sc & Sg & St) Hch Hdh G U Cs IO k' x H. unfold PkgAuth.cache_package in H.
     set (n := hex (e_dh e)) in *.
     assert (sums_pass (e_tar e)) as SP by (intros fs E; rewrite U in E; inversion E; subst; exact Cs).
     destruct (adv_b_get (e_ch e) (c_raw (e_ctl e)) (k_ctl k)) as (cw & Ac & Hc).
@@ -354,7 +419,7 @@ Section WithOracles.
     assert (cw = c_raw (e_ctl e)) as -> by (destruct Hc as [Hc|Hc]; [apply Sc; exact Hc | exact Hc]).
     assert (gw = e_gz e) as -> by (destruct Hg as [Hg|Hg]; [apply Sg; exact Hg | exact Hg]).
     assert (tw = e_tar e) as -> by (destruct Ht as [Ht|Ht]; [apply St; exact Ht | exact Ht]).
-    inversion H; subst k' x; clear H. cbn [k_ctl k_gz k_tar]. rewrite Ac, Ag, At, U. split; [|reflexivity].
+    inversion H; subst k' x; clear H. cbn [k_ctl k_gz k_tar]. rewrite Ac, Ag, At, U, IO. split; [|reflexivity].
     split; [|split; [|split]].
     - intros s c Hin. apply adv_b_in in Hin. destruct Hin as [Hin|(-> & -> & _)]; [apply Kc; exact Hin | exact Hch].
     - intros m g Hin. apply adv_s_in in Hin. destruct Hin as [Hin|(-> & -> & _)]; [apply Kg; exact Hin|].
@@ -416,7 +481,7 @@ Section WithOracles.
       destruct (expand_apk s) as [e|c] eqn:EA; [|discriminate].
       destruct (verify_expanded b64 h (e_ch e) (e_dh e) (e_ctl e)) eqn:V; cbn [negb]; [|discriminate].
       apply verify_expanded_spec in V. destruct V as [V1 V2].
-      destruct (expand_apk_spec _ _ _ EA) as (u & Cu & Er & M & Ech & Eg & G & U & Full & _).
+      destruct (expand_apk_spec _ _ _ EA) as (u & Cu & Er & M & Ech & Eg & G & U & Full & _ & IO).
       destruct (Full (cut_full _ _ Cu)) as [Edh Cs].
       assert (Chain h {| x_ctl := e_ctl e; x_ctl_file := c_raw (e_ctl e);
                          x_dat := {| d_raw := e_gz e; d_files := e_files e |}; x_ctl_hash := e_ch e |}) as CH.
@@ -455,7 +520,7 @@ Section WithOracles.
     destruct k1 as [kc1|]; [|discriminate].
     (* cachePackage ran and re-opening the tar failed: the cache was written all the same *)
     destruct (cache_package kc1 e0) as [kc' xo] eqn:CP. inversion H; subst; clear H.
-    destruct (expand_apk_spec _ _ _ EA) as (u & Cu & Er & M & Ech & Eg & G & U & Full & _).
+    destruct (expand_apk_spec _ _ _ EA) as (u & Cu & Er & M & Ech & Eg & G & U & Full & _ & IO).
     destruct (Full (cut_full _ _ Cu)) as [Edh Cs].
     assert (dst_same kc1 e0) as DS.
     { destruct k as [kc|]; [|discriminate L]. destruct (cached_package kc h) as [x0 kc2] eqn:CP0. inversion L; subst.
@@ -682,7 +747,7 @@ Section Fill.
   Variable sha1 : list N -> list N.
   Definition fill (f : dfile) : dfile :=
     match f_kind f, f_sum f with
-    | FReg, SumNone => {| f_name := f_name f; f_kind := FReg; f_body := f_body f; f_sum := SumSome (sha1 (f_body f)); f_link := f_link f |}
+    | FReg, SumNone => {| f_name := f_name f; f_kind := FReg; f_body := f_body f; f_sum := SumSome (sha1 (f_body f)); f_link := f_link f; f_sparse := f_sparse f |}
     | _, _ => f
     end.
   Lemma fill_proj f :
@@ -728,7 +793,7 @@ Section EndToEnd.
   Variable sha256 : list N -> list N.
   Variable b64 : string -> option (list N).
   Variable first_name : list N -> option string.
-  Variable ctl_view : list N -> option (string * list string).
+  Variable ctl_view : list N -> option (string * string).
   Variable gunzip : list N -> option (list N).
   Variable untar : list N -> option (list dfile).
   Hypothesis cr1 : forall a b, sha1 a = sha1 b -> a = b.
@@ -782,11 +847,11 @@ Definition wit_b64 (s : string) : option (list N) :=
   if String.eqb s "1" then Some [1]%N else if String.eqb s "2" then Some [2]%N else if String.eqb s "9" then Some [9]%N else None.
 (* member [9] starts with a .SIGN.* entry, every other member with .PKGINFO *)
 Definition wit_first (r : list N) : option string := if bytes_eqb r [9]%N then Some ".SIGN.RSA.k" else Some ".PKGINFO".
-Definition wit_ctl (r : list N) : option (string * list string) := Some ("", []).
+Definition wit_ctl (r : list N) : option (string * string) := Some ("", "").
 Definition wit_gunzip (r : list N) : option (list N) := Some r.
 (* tar [6] holds one regular file whose body [7] disagrees with its recorded checksum [8] *)
 Definition wit_untar (t : list N) : option (list dfile) :=
-  if bytes_eqb t [6]%N then Some [{| f_name := "f"; f_kind := FReg; f_body := [7]%N; f_sum := SumSome [8]%N; f_link := "" |}]
+  if bytes_eqb t [6]%N then Some [{| f_name := "f"; f_kind := FReg; f_body := [7]%N; f_sum := SumSome [8]%N; f_link := ""; f_sparse := false |}]
   else Some [].
 Notation wit_expand_package := (expand_package idf idf wit_b64 wit_first wit_ctl wit_gunzip wit_untar).
 Notation wit_Chain := (Chain idf idf wit_b64 wit_ctl wit_gunzip wit_untar).
@@ -882,3 +947,85 @@ Lemma cache_hit_authentic sha1 sha256 b64 ctl_view gunzip untar k h x k' :
   cache_ok sha1 sha256 gunzip untar k -> cached_package b64 ctl_view gunzip untar k h = (Some x, k') ->
   Chain sha1 sha256 b64 ctl_view gunzip untar h x /\ cache_ok sha1 sha256 gunzip untar k'.
 Proof. intros. split; [eapply cached_package_chain; eauto | eapply cached_package_keeps_ok; eauto]. Qed.
+
+(* ---- what is installed was hashed ------------------------------------------------------ *)
+Lemma data_section_incl : forall fs g, In g (data_section fs) -> In g fs.
+Proof.
+  induction fs as [|a l IH]; simpl; [auto|].
+  destruct (hidden a); [intros g Hg; right; apply IH; exact Hg | auto].
+Qed.
+
+Lemma installed_hashed_b_iff sha1 x out : installed_hashed_b sha1 x out = true <-> Installed_hashed sha1 x out.
+Proof.
+  unfold installed_hashed_b, Installed_hashed. rewrite forallb_forall. split.
+  - intros H n b Hin. specialize (H _ Hin). apply existsb_exists in H. destruct H as (f & Hf & E).
+    apply andb_true_iff in E. destruct E as [E Ok]. apply andb_true_iff in E. destruct E as [K B].
+    exists f. split; [exact Hf|]. split; [apply fkind_eqb_eq; exact K|]. split; [apply bytes_eqb_eq; exact B|].
+    apply file_ok_b_iff. exact Ok.
+  - intros H [n b] Hin. destruct (H n b Hin) as (f & Hf & K & B & Ok). apply existsb_exists. exists f. split; [exact Hf|].
+    simpl. rewrite K, B, bytes_eqb_refl. simpl. apply file_ok_b_iff. exact Ok.
+Qed.
+
+(* the chain and a successful install (either path) give it *)
+Lemma chain_installed_hashed sha1 sha256 b64 ctl_view gunzip untar h x lazy out :
+  Chain sha1 sha256 b64 ctl_view gunzip untar h x -> install lazy x = Some out -> Installed_hashed sha1 x out.
+Proof.
+  intros (_ & _ & _ & _ & _ & Fok) Inst n b Hin.
+  destruct (installed_bytes lazy x out n b Inst Hin) as (f & If & _ & [[K B]|[_ (g & Ig & Kg & Bg)]]).
+  - exists f. pose proof (data_section_incl _ _ If) as I. auto.
+  - exists g. pose proof (data_section_incl _ _ Ig) as I. auto.
+Qed.
+
+(* ---- the sources of a fetch ---------------------------------------------------------------- *)
+Lemma fetch_sources http has_cache offline whole origin s :
+  fetch http has_cache offline whole origin = Some s -> whole = Some s \/ (origin = Some s /\ (http && has_cache && offline = false)).
+Proof.
+  unfold fetch. destruct http, has_cache; simpl; try (intro H; right; split; [exact H | reflexivity]).
+  destruct whole as [w|]; [intro H; left; exact H|]. destruct offline; [discriminate|]. intro H; right; auto.
+Qed.
+Lemma fetch_offline whole origin : fetch true true true whole origin = whole.
+Proof. unfold fetch. simpl. destruct whole; reflexivity. Qed.
+Lemma fetch_whole_first offline w origin : fetch true true offline (Some w) origin = Some w.
+Proof. reflexivity. Qed.
+
+(* ---- sparse entries (fixed finding C05-F4): whatever the path — fetched with or without a
+   cache, warm hit with or without the uncompressed tar — an expansion that succeeds holds
+   no sparse entry: the tar index refuses the archive *)
+Lemma index_ok_no_sparse fs : index_ok fs = true -> forall f, In f fs -> f_sparse f = false.
+Proof.
+  unfold index_ok. intros H f Hf. destruct (f_sparse f) eqn:E; [|reflexivity].
+  assert (existsb f_sparse fs = true) as X by (apply existsb_exists; exists f; auto). rewrite X in H. discriminate H.
+Qed.
+
+Lemma expand_uncached_no_sparse sha1 sha256 b64 first_name ctl_view gunzip untar k h served x k' :
+  expand_uncached sha1 sha256 b64 first_name ctl_view gunzip untar k h served = (XOk x, k') ->
+  forall f, In f (d_files (x_dat x)) -> f_sparse f = false.
+Proof.
+  intro H. apply index_ok_no_sparse. revert H. unfold expand_uncached.
+  destruct (match k with
+            | Some kc => let (x0, kc1) := cached_package b64 ctl_view gunzip untar kc h in (x0, Some kc1)
+            | None => (None, None) end) as [hit k1] eqn:L.
+  destruct hit as [x0|].
+  - intro H. inversion H; subst. destruct k as [kc|]; [|discriminate L].
+    destruct (cached_package b64 ctl_view gunzip untar kc h) as [xo kc1] eqn:CP. inversion L; subst. clear L H.
+    unfold cached_package in CP. destruct (h_q1 h); [|discriminate].
+    destruct (h_sum b64 h) as [sum|]; [|discriminate].
+    destruct (assoc_b sum (k_ctl kc)) as [craw|]; [|discriminate].
+    destruct (mk_ctl ctl_view craw) as [c|]; [|discriminate].
+    destruct (c_datahash c) as [|dh [|? ?]]; try discriminate.
+    destruct (assoc_s dh (k_gz kc)) as [gz|]; [|discriminate].
+    destruct (is_hex dh); [|discriminate].
+    destruct (assoc_s dh (k_tar kc)) as [t|].
+    + destruct (untar t) as [fs|]; [|discriminate]. destruct (index_ok fs) eqn:IO; [|discriminate]. inversion CP; subst. exact IO.
+    + destruct (gunzip gz) as [t|]; [|discriminate].
+      destruct (untar t) as [fs|]; [|discriminate]. destruct (index_ok fs) eqn:IO; [|discriminate]. inversion CP; subst. exact IO.
+  - destruct served as [s|]; [|discriminate].
+    destruct (expand_apk sha1 sha256 first_name ctl_view gunzip untar s) as [e|c] eqn:EA; [|discriminate].
+    destruct (negb (verify_expanded b64 h (e_ch e) (e_dh e) (e_ctl e))); [discriminate|].
+    destruct (expand_apk_spec sha1 sha256 first_name ctl_view gunzip untar _ _ _ EA) as (u & _ & _ & _ & _ & _ & _ & _ & _ & _ & IO).
+    destruct k1 as [kc1|].
+    + destruct (cache_package untar kc1 e) as [kc' xo] eqn:CP. destruct xo as [x1|]; [|discriminate].
+      intro H. inversion H; subst. unfold cache_package in CP. inversion CP as [[Hk Hx]]. clear CP H Hk.
+      destruct (untar _) as [fs|]; [|discriminate]. destruct (index_ok fs) eqn:IO2; [|discriminate]. inversion Hx; subst. exact IO2.
+    + intro H. inversion H; subst. exact IO.
+Qed.
